@@ -8,6 +8,7 @@ import PxModel.DrvParser
   table     `E` (no plugin) or plugins joined by `|`; a plugin is `e` (no route) or routes joined by `;`;
             a route is `s.<pat>.<url>,<url>…` (static; `e` for an empty url list),
             `u.<pat>.<url>` (dynamic, handle_route returns Url.from_bytes(url)),
+            `m.<pat>.<url>.<suffix>` (dynamic, returns Url.from_bytes(url) with `remainder += suffix`),
             `l.<pat>.<resp>` (dynamic, literal response), `x.<pat>` (dynamic, handle_route raises)
   matchbits string of 0/1 indexed by pattern id (`-` = none)
   picks     comma separated indices, one per plugin position (`-` = none; missing = 0)
@@ -33,6 +34,18 @@ def parseRoute (s : String) : Option Route :=
     -- the generated plugin's handle_route is `return Url.from_bytes(url)`
     match Px.Url.fromBytes Px.Gen.defaultAllowedUrlSchemes raw with
     | .ok u => some (.dynamic p (.url u))
+    | .error e => some (.dynamic p (.raises (urlErr e)))
+  | ["m", p, url, sfx] => do
+    let p ← p.toNat?
+    let raw ← unhex url
+    let sfx ← unhex sfx
+    -- the generated plugin's handle_route is `u = Url.from_bytes(url); u.remainder += suffix; return u`
+    -- (as the shipped proxy.plugin.ReverseProxyPlugin); `None += bytes` is a TypeError
+    match Px.Url.fromBytes Px.Gen.defaultAllowedUrlSchemes raw with
+    | .ok u =>
+      match u.remainder with
+      | some r => some (.dynamic p (.url { u with remainder := some (r ++ sfx) }))
+      | none => some (.dynamic p (.raises .typeError))
     | .error e => some (.dynamic p (.raises (urlErr e)))
   | ["l", p, resp] => do
     let p ← p.toNat?
